@@ -2,7 +2,7 @@
 META = {
     "level": "fault_enumeration",
     "technique": "differential runtime monitoring of the real upload Helper on the in-process grid (twin grid = direct upload oracle) with enumeration of every client-disconnect point of the ciphertext transfer and every file-system crash point (vf.fsx) of the helper's ciphertext spool, each followed by a resumed upload from a new client",
-    "text": "The real allmydata.immutable.offloaded.Helper (constructed as client.init_helper does) is reached by the real Uploader/AssistedUploader of a client through a schedulable two-way wire (upload_chk, upload, and the helper's get_size/get_all_encoding_parameters/read_encrypted/close calls back to the client are wire messages).  For generated (size, k, happy, N, segment size, server count, fetch chunk size, convergence secret): (a) the read-cap and verify-cap of the helper upload equal those of a direct upload of the same data on a twin grid and every share's data region is byte-identical by share number, and the file reads back; (b) for EVERY index i of the helper's read_encrypted calls the client connection is cut at call i (before it is served / after it was served but before the answer arrives), a new client resumes, and cap and shares equal the uninterrupted ones; (c) for EVERY file-system operation of the helper (creat/write(2)/rename/unlink of CHK_incoming, CHK_encoding, as decided by CPython's real buffering) the helper process is killed there, its storage connections drop, a new Helper starts on the same directory, a new client resumes: same cap, same shares; (d) a second upload of a present file makes no allocate_buckets / write / close call to any storage server, fetches no ciphertext and reports 0 pushed shares with the same cap; (e) a second client joining an active upload, the first one vanishing (takeover).",
+    "text": "The real allmydata.immutable.offloaded.Helper (constructed as client.init_helper does) is reached by the real Uploader/AssistedUploader of a client through a schedulable two-way wire (upload_chk, upload, and the helper's get_size/get_all_encoding_parameters/read_encrypted/close calls back to the client are wire messages).  For generated (size, k, happy, N, segment size, server count, fetch chunk size, convergence secret): (a) the read-cap and verify-cap of the helper upload equal those of a direct upload of the same data on a twin grid and every share's data region is byte-identical by share number, and the file reads back; (b) for EVERY index i of the helper's read_encrypted calls the client connection is cut at call i (before it is served / after it was served but before the answer arrives), a new client resumes, and cap and shares equal the uninterrupted ones; (c) for EVERY file-system operation of the helper (creat/write(2)/rename/unlink of CHK_incoming, CHK_encoding, as decided by CPython's real buffering) the helper process is killed there, its storage connections drop, a new Helper starts on the same directory, a new client resumes: same cap, same shares; (d) a second upload of a present file makes no allocate_buckets / write / close call to any storage server, fetches no ciphertext and reports 0 pushed shares with the same cap; (e) a second client joining an active upload, the first one vanishing (takeover); (f) history upload -> share files lost so that r distinct share numbers remain (r in {0,k-1,k,k+1,N-1,N}) -> upload again through the helper, against the same history with a direct second upload on the twin grid: same cap and the same set of complete share numbers afterwards ('already present' is only accepted when the direct upload pushes nothing either).",
     "note": "Trusts the in-process wire (stands in for foolscap), the virtual reactor and vf.fsx (validated against strace by C29).  The helper's fetch chunk size (a class constant, 50 KiB) is lowered in most cases so that small files have many chunk boundaries; the real value is used in others.",
 }
 LEVEL = "fault_enumeration"
@@ -550,6 +550,119 @@ def family_helper_kill(ck, p, data, conv, ref, desc):
             w.close()
 
 
+def _complete_numbers(grid, ref):
+    """share numbers present on the grid whose data region is the genuine share (every copy)."""
+    from vf.checks._storage import parse_immutable
+    good, bad = set(), set()
+    for (_vs, shnum, path) in grid.find_shares(ref["si"]):
+        if parse_immutable(path).data == ref["shares"].get(shnum):
+            good.add(shnum)
+        else:
+            bad.add(shnum)
+    return good - bad, bad
+
+
+def _drop_shares(grid, si, keep):
+    n = 0
+    for (_vs, shnum, path) in grid.find_shares(si):
+        if shnum not in keep:
+            os.remove(path)
+            n += 1
+    return n
+
+
+def family_reupload_after_loss(ck, p, data, conv, ref, desc, rng):
+    """History: the file is uploaded, share files disappear so that r distinct share numbers remain, the file
+    is uploaded again -- through the helper on grid A, directly on the twin grid B with the same losses.
+    Afterwards: same cap, and the same set of complete share numbers on A as on B ('already present, nothing
+    pushed' is only right when the direct upload pushes nothing either)."""
+    from vf.grid import VGrid
+    from allmydata.immutable.upload import Data
+    k, n = p["k"], p["n"]
+    rs = sorted(set(r for r in (0, k - 1, k, k + 1, n - 1, n) if 0 <= r <= n))
+    if ck.tier == "quick":
+        mid = [r for r in rs if k <= r < n]
+        pick = set(rng.sample(rs, min(2, len(rs))))
+        if mid:
+            pick.add(rng.choice(mid))           # enough to read the file, not all there
+        rs = sorted(pick)
+    for r in rs:
+        keep = set(rng.sample(sorted(ref["shares"]), r))
+        first_via = rng.choice(["helper", "direct"])
+        d2 = dict(desc, remaining_share_numbers=sorted(keep), r=r, first_upload=first_via)
+        with ck.watchdog(180, "reupload-after-loss %r" % (d2,)):
+            # ---- twin grid B: direct, direct
+            g = VGrid(nservers=p["nservers"], seed=p["seed"], profile="fifo", keep_log=False)
+            try:
+                c = g.make_client(k=k, happy=p["happy"], n=n, max_segment_size=p["segsize"])
+                st, res = g.wait(c.upload(Data(data, convergence=conv)))
+                if st != "ok":
+                    ck.skip("direct-upload-fails-too")
+                    continue
+                _drop_shares(g, ref["si"], keep)
+                c2 = g.make_client(k=k, happy=p["happy"], n=n, max_segment_size=p["segsize"])
+                stB, resB = g.wait(c2.upload(Data(data, convergence=conv)))
+                goodB, badB = _complete_numbers(g, ref)
+                capB = resB.get_uri() if stB == "ok" else None
+                pushedB = resB.get_pushed_shares() if stB == "ok" else None
+            finally:
+                g.close()
+            if stB != "ok":
+                ck.skip("direct-reupload-fails-too")
+                continue
+            # ---- grid A: same history, second upload through the helper
+            w = World(p)
+            try:
+                if first_via == "helper":
+                    c, _ch = w.client()
+                    st, res = upload_via(w, c, data, conv)
+                else:
+                    c = w.g.make_client(k=k, happy=p["happy"], n=n, max_segment_size=p["segsize"])
+                    st, res = w.g.wait(c.upload(Data(data, convergence=conv)))
+                if st != "ok":
+                    ck.observe("first-upload-of-loss-history-failed")
+                    continue
+                dropped = _drop_shares(w.g, ref["si"], keep)
+                c2, ch2 = w.client()
+                mark = len(w.g.calls)
+                stA, resA = upload_via(w, c2, data, conv)
+                ck.mon("reupload-after-share-loss")
+                if stA != "ok":
+                    ck.violation("helper-upload-failed-where-direct-succeeds",
+                                 "re-upload through the helper with %d of %d share numbers left %s (%s); the direct "
+                                 "re-upload on the twin grid succeeded" % (r, n, stA, _f(resA)), d2)
+                    continue
+                goodA, badA = _complete_numbers(w.g, ref)
+                if resA.get_uri() != capB:
+                    ck.violation("helper-readcap-differs-from-direct", "re-upload after share loss: cap %r, direct %r"
+                                 % (resA.get_uri(), capB), d2)
+                if badA:
+                    ck.violation("helper-shares-differ-from-direct", "re-upload after share loss left share numbers "
+                                 "%r with wrong data" % sorted(badA), d2)
+                if goodA != goodB:
+                    sw = storage_writes(w.g.calls, mark)
+                    ck.violation("helper-does-not-restore-missing-shares",
+                                 "%d of %d share numbers were left (k=%d); after the re-upload through the helper the "
+                                 "grid holds complete shares %r, after the direct re-upload on the twin grid %r "
+                                 "(direct pushed %r shares; helper reported pushed=%r fetched=%r preexisting=%r and made "
+                                 "%d storage write calls)" % (
+                                     r, n, k, sorted(goodA), sorted(goodB), pushedB, resA.get_pushed_shares(),
+                                     resA.get_ciphertext_fetched(), resA.get_preexisting_shares(), len(sw)), d2)
+                elif not resA.get_pushed_shares() and pushedB:
+                    ck.violation("present-reported-although-direct-pushes",
+                                 "helper reported nothing pushed, the direct re-upload pushed %r shares" % pushedB, d2)
+                if dropped and k <= r < n:
+                    ck.hit("reupload-with-readable-but-incomplete-share-set")
+                if r == 0:
+                    ck.hit("reupload-after-total-loss")
+                if pushedB:
+                    ck.hit("direct-reupload-restored-shares")
+                ck.case("reupload-after-loss", key=(p["size"], k, n, p["nservers"], r, first_via, tuple(sorted(keep))),
+                        sample=d2)
+            finally:
+                w.close()
+
+
 def family_takeover(ck, p, data, conv, ref, desc, n_chunks, rng):
     """A second client joins the active upload; the first one vanishes after chunk j; the helper goes on with
     the second reader (skip-ahead hashing on its side)."""
@@ -623,6 +736,7 @@ def run(ck):
         ck.case("equivalence", key=(p["size"], p["k"], p["n"], p["segsize"], p["nservers"], p["chunk"]), sample=desc)
         if n_chunks is None:
             return
+        family_reupload_after_loss(ck, p, data, conv, ref, desc, crng)
         # the enumerations are run on every case whose transfer is small enough, at least on the first
         # two cases of a run
         cost = 2 * n_chunks + 5
@@ -645,10 +759,12 @@ def run(ck):
     ck.extra["cases_with_full_enumeration"] = full
     ck.exhaustive = True     # within each enumerated case: every read_encrypted index, every helper fs operation
     ck.require_monitor("cap-equals-direct", "shares-equal-direct", "already-present",
-                       "resume-after-client-disconnect", "resume-after-helper-kill", "helper-upload-reads-back")
+                       "resume-after-client-disconnect", "resume-after-helper-kill", "helper-upload-reads-back",
+                       "reupload-after-share-loss")
     ck.require_reach("helper-upload-completed", "multi-chunk-fetch", "second-upload-of-present-file",
                      "client-disconnected-mid-upload", "partial-ciphertext-kept-by-helper",
-                     "partial-ciphertext-survived-helper-kill", "helper-killed:write", "helper-killed:rename")
+                     "partial-ciphertext-survived-helper-kill", "helper-killed:write", "helper-killed:rename",
+                     "reupload-with-readable-but-incomplete-share-set", "direct-reupload-restored-shares")
 
 
 # MUST_CATCH (selftest/breaks_c44.py), all caught by the quick tier:
@@ -657,5 +773,6 @@ def run(ck):
 #   c44-resume-offset-off-by-one / c44-resume-refetches-last-byte  CHKCiphertextFetcher resume offset +-1
 #                                                    -> resumed-helper-upload-failed
 #   c44-already-present-check-skipped                -> present-file-uploaded-again, present-file-not-reported-as-present
+#   seeded/C44-2 (already-present declared at k instead of N distinct shares) -> helper-does-not-restore-missing-shares
 #   c44-client-skip-ahead-off-by-one                 RemoteEncryptedUploadable skip-ahead -> resumed-helper-upload-failed
 # Not a break of C44 (stays green, rightly): ignoring a complete CHK_encoding spool file (re-fetch, same result).
